@@ -140,15 +140,18 @@ Definition check_body (g : gov) (wide : Z) (ob : option body)
            (ri rf : option Z) (rs rb : option (list Z)) : verdict :=
   (* hardware conversions are computed by the model; only the platform-defined int64(float64)
      results and strconv / protojson text are taken from the observation *)
-  let o := go_oracles (fun _ => match ri with Some v => v | None => 0 end)
+  let o := go_oracles (fun _ => wide)
+                      (fun _ => match ri with Some v => v | None => 0 end)
                       (fun _ => match rs with Some v => v | None => [] end)
                       (fun _ => rf)
                       (fun _ => match rs with Some v => v | None => [] end) in
   let b := set_body o g in
   (* the widening datum the harness attached to the input is what the model computes *)
+  let wide_is := fun bits => if is_nan32 bits then (f64_exp wide =? 2047) && negb (f64_man wide =? 0)
+                             else widen32 bits =? wide in
   let wide_ok := match g with
-                 | GF32 bits => widen32 bits =? wide
-                 | GBytes l => if Nat.eqb (length l) 4 then widen32 (le_get l) =? wide else true
+                 | GF32 bits => wide_is bits
+                 | GBytes l => if Nat.eqb (length l) 4 then wide_is (le_get l) else true
                  | _ => true
                  end in
   let corr :=
@@ -204,7 +207,7 @@ Definition check_body (g : gov) (wide : Z) (ob : option body)
 
 (* ---- scenario 3: across the wire ---------------------------------------------------- *)
 Definition no_oracle (wide : Z) : oracles :=
-  go_oracles (fun _ => 0) (fun _ => []) (fun _ => None) (fun _ => []).
+  go_oracles (fun _ => wide) (fun _ => 0) (fun _ => []) (fun _ => None) (fun _ => []).
 
 Definition check_wire (codec thr : Z) (enc : bool) (h : hdr) (ec : option Z) (g : gov) (wide : Z)
            (obs : option (hdr * option body * Z * option (list Z) * option (hdr * option body))) : verdict :=
@@ -420,8 +423,9 @@ Definition check (c : sx) : verdict :=
   | SList [SList [SInt 10; SInt _; SInt _; SInt _]; SList [SInt 10; SInt code]] =>
       if code =? 0 then VOk else if code =? 4 then VPropFail 4 else VPropFail 3
   (* a large text / byte body evaluated in Go (harness/cmd/c07: bigBody):
-     (7 kind size seed codec thr enc) -> (7 code), code 0 ok | 1 read-back | 3 wire form / after the wire *)
-  | SList [SList [SInt 7; SInt _; SInt _; SInt _; SInt _; SInt _; SInt _]; SList [SInt 7; SInt code]] =>
+     (7 kind size seed codec thr enc) -> (7 code delivered_length), kind 0/1 random text/bytes, 2/3 highly
+     compressible text/bytes; code 0 ok | 1 read-back | 3 wire form / after the wire *)
+  | SList [SList [SInt 7; SInt _; SInt _; SInt _; SInt _; SInt _; SInt _]; SList [SInt 7; SInt code; SInt _]] =>
       if code =? 0 then VOk else if code =? 1 then VPropFail 1 else VPropFail 3
   (* the library panicked outside the calls whose panic is an outcome of its own *)
   | SList [SList _; SList [SInt (-1)]] => VPropFail 8
